@@ -51,9 +51,9 @@ def synthesize(name: str, bases: tuple[type, ...], **kwargs: Any) -> type:
         ns.update(kwargs)
 
     newcls: type = types.new_class(name, bases, exec_body=build_body)
-    __registry[name] = newcls
-
-    return newcls
+    # NOTE: another thread may have registered the name since the lookup above;
+    #   the class registered first is the one every caller must get
+    return __registry.setdefault(name, newcls)
 
 
 def registered_synthetics() -> dict[str, SynthNode]:
